@@ -27,6 +27,7 @@ import (
 	"strconv"
 	"strings"
 	"sync"
+	"sync/atomic"
 	"time"
 	_ "time/tzdata"
 )
@@ -230,6 +231,7 @@ func stormGroup(js []*job, heavy bool) [][]stormAns {
 	local := make([][][]stormAns, g)
 	calls := make([]int, g)
 	var wg sync.WaitGroup
+	var barrier atomic.Int64
 	start := make(chan struct{})
 	for w := 0; w < g; w++ {
 		wg.Add(1)
@@ -255,8 +257,19 @@ func stormGroup(js []*job, heavy bool) [][]stormAns {
 						mine[i] = append(mine[i], stormAns{r, p})
 					}
 				}
-				if heavy || time.Since(t0) > 300*time.Microsecond {
+				if heavy {
 					break
+				}
+				// a third of a millisecond AND at least three passes: on a loaded machine a goroutine can spend the
+				// whole time slice waiting for a processor, and one pass each, one after the other, overlaps with nothing
+				if time.Since(t0) > 300*time.Microsecond && pass >= 2 {
+					break
+				}
+				// start the next pass together (bounded wait: nobody hangs if a goroutine has left the loop)
+				arrived := barrier.Add(1)
+				target := (arrived + int64(g) - 1) / int64(g) * int64(g)
+				for spin := 0; barrier.Load() < target && spin < 2000; spin++ {
+					runtime.Gosched()
 				}
 			}
 		}(w)
